@@ -141,3 +141,491 @@ def _loop_sig(fa, body):
 
 
 RULES = []
+
+
+# ===========================================================================
+# panic-site discipline
+PANIC_CALLEES_PREFIX = ("core::panicking::", "std::rt::begin_panic", "std::rt::panic_fmt", "core::panicking::panic", "std::process::abort", "std::process::exit")
+UNWRAPS = ("std::option::Option::<T>::unwrap", "std::option::Option::<T>::expect", "std::result::Result::<T, E>::unwrap", "std::result::Result::<T, E>::expect",
+           "std::result::Result::<T, E>::unwrap_err", "std::result::Result::<T, E>::expect_err")
+INDEXERS = ("std::ops::Index::index", "std::ops::IndexMut::index_mut")
+OTHER_PANICKY = ("core::slice::<impl [T]>::copy_from_slice", "core::slice::<impl [T]>::split_at", "core::slice::<impl [T]>::split_at_mut", "std::vec::Vec::<T, A>::remove", "std::vec::Vec::<T, A>::insert",
+                 "std::vec::Vec::<T, A>::drain", "std::vec::Vec::<T, A>::swap_remove", "std::vec::Vec::<T, A>::split_off", "std::cell::RefCell::<T>::borrow", "std::cell::RefCell::<T>::borrow_mut",
+                 "core::num::<impl u32>::pow", "core::num::<impl u64>::pow", "core::slice::<impl [T]>::chunks", "core::slice::<impl [T]>::windows", "std::iter::Iterator::step_by")
+ASSERT_OBLIGATIONS = ("BoundsCheck", "Overflow(Sub)", "DivisionByZero", "RemainderByZero")
+ASSERT_COUNTED = ("Overflow(Add)", "Overflow(Mul)", "Overflow(Shl)", "Overflow(Shr)", "OverflowNeg")
+
+
+class Site:
+    def __init__(self, fa, bb, kind, detail, ops):
+        self.fa, self.bb, self.kind, self.detail, self.ops = fa, bb, kind, detail, ops
+        self.fn = fn_of(fa.body.name)
+
+    def sig(self):
+        return "%s(%s)" % (self.detail, ", ".join(term_sig_(o) for o in self.ops))
+
+    def coarse(self):
+        """robust operand signature: the parameter / field paths, constants and
+        callee names the operands are built from (structure and literals dropped)"""
+        leaves = set()
+        for o in self.ops:
+            for s in subterms(unwrap_ovf(o)):
+                if not isinstance(s, tuple) or not s:
+                    continue
+                if s[0] in ("param", "field"):
+                    p = path_of(s)
+                    if p:
+                        leaves.add(p)
+                elif s[0] == "const":
+                    leaves.add(s[1].split("::")[-1])
+                elif s[0] == "call":
+                    leaves.add(s[2].split("::")[-1] + "()")
+        # keep only maximal paths
+        ps = sorted(leaves)
+        ps = [p for p in ps if not any(q != p and q.startswith(p + ".") for q in ps)]
+        return "%s{%s}" % (self.detail, ",".join(ps))
+
+    def key(self):
+        return "%s|%s|%s" % (self.fn, self.kind, self.coarse())
+
+    def where(self):
+        return "%s in %s" % (loc(self.fa, self.bb), self.fa.body.name)
+
+
+def term_sig_(t):
+    from ..analysis import term_sig
+    return term_sig(unwrap_ovf(t))[:140]
+
+
+def panic_sites(ctx, fa):
+    out, counted = [], 0
+    for b in fa.live():
+        t = b.term
+        if t["k"] == "assert":
+            ak = t["akind"]
+            ops = [fa.origin_operand(o, b.i, len(b.stmts)) for o in t["aops"]]
+            if ak in ("DivisionByZero", "RemainderByZero"):
+                # the assert message carries the dividend; the divisor is in the condition `divisor == 0`
+                c = fa.origin_operand(t["cond"], b.i, len(b.stmts))
+                if c[0] == "bin" and c[1] == "Eq":
+                    ops = [c[2]]
+            if ak in ASSERT_OBLIGATIONS:
+                out.append(Site(fa, b.i, "assert", ak, ops))
+            elif ak in ASSERT_COUNTED:
+                counted += 1
+        elif t["k"] == "call":
+            c = t.get("callee") or ""
+            if t["span"].get("exp") and ("format_args" in str(t["span"].get("macro")) or "tracing" in str(t["span"].get("macro"))):
+                pass
+            if c in UNWRAPS:
+                out.append(Site(fa, b.i, "unwrap", c.split("::")[-1], [fa.arg_origin(b.i, 0)]))
+            elif c in INDEXERS:
+                ops = [fa.arg_origin(b.i, i) for i in range(len(t["args"]))]
+                base_ty = t["arg_tys"][0] if t.get("arg_tys") else ""
+                out.append(Site(fa, b.i, "index", "index<%s>" % _short_ty(base_ty), ops))
+            elif c.startswith(PANIC_CALLEES_PREFIX):
+                out.append(Site(fa, b.i, "panic", c.split("::")[-1], []))
+            elif c in OTHER_PANICKY:
+                ops = [fa.arg_origin(b.i, i) for i in range(len(t["args"]))]
+                out.append(Site(fa, b.i, "call", c.split("::")[-1], ops))
+    return out, counted
+
+
+def _short_ty(ty):
+    ty = ty.replace("&mut ", "").replace("&", "")
+    if ty.startswith("std::vec::Vec<"):
+        return "Vec"
+    if ty.startswith("["):
+        return "slice"
+    if ty.startswith("std::boxed::Box<["):
+        return "slice"
+    return ty.split("<")[0].split("::")[-1]
+
+
+# ---------------------------------------------------------------- guards
+def dominating_conditions(fa, bb):
+    """[(cond term (Not-stripped), truth)] of bool switches one edge of which
+    dominates bb, and discriminant tests [(('disc', term), variant value)]"""
+    out = []
+    for b in fa.live():
+        t = b.term
+        if t["k"] != "switch" or b.i == bb and False:
+            continue
+        o = fa.origin_operand(t["discr"], b.i, len(b.stmts))
+        m = {v: x for v, x in t["targets"]}
+        if t.get("discr_ty") == "bool":
+            neg = False
+            while isinstance(o, tuple) and o[0] == "un" and o[1] == "Not":
+                o = o[2]
+                neg = not neg
+            f = m.get(0, t["otherwise"])
+            tr = t["otherwise"] if 0 in m else m.get(1)
+            if tr is not None and tr != f:
+                if fa.dominates(tr, bb) and not fa.dominates(f, bb):
+                    out.append((unwrap_ovf(o), (not neg), b.i))
+                elif fa.dominates(f, bb) and not fa.dominates(tr, bb):
+                    out.append((unwrap_ovf(o), neg, b.i))
+        else:
+            for v, x in list(m.items()) + [("otherwise", t["otherwise"])]:
+                others = [y for w, y in list(m.items()) + [("otherwise", t["otherwise"])] if w != v]
+                if fa.dominates(x, bb) and not any(fa.dominates(y, bb) for y in others if y != x):
+                    out.append((unwrap_ovf(o), v, b.i))
+    return out
+
+
+def same(a, b):
+    return term_sig_(strip(a)) == term_sig_(strip(b))
+
+
+CMP_FLIP = {"Lt": "Gt", "Gt": "Lt", "Le": "Ge", "Ge": "Le", "Eq": "Eq", "Ne": "Ne"}
+CMP_NEG = {"Lt": "Ge", "Ge": "Lt", "Gt": "Le", "Le": "Gt", "Eq": "Ne", "Ne": "Eq"}
+
+
+def known_relations(ctx, fa, bb):
+    """normalised facts (op, a, b) that hold on entry to bb"""
+    facts = []
+    for o, truth, sb in dominating_conditions(fa, bb):
+        if not isinstance(o, tuple):
+            continue
+        if o[0] == "bin" and o[1] in CMP_FLIP and isinstance(truth, bool):
+            op = o[1] if truth else CMP_NEG[o[1]]
+            facts.append((op, o[2], o[3]))
+            facts.append((CMP_FLIP[op], o[3], o[2]))
+        elif o[0] == "call" and isinstance(truth, bool):
+            nm = o[2].split("::")[-1]
+            if nm == "is_empty":
+                facts.append(("Gt" if not truth else "Eq", ("len", strip(o[3][0])), ("lit", 0)))
+            elif nm in ("is_some", "is_ok") and truth or nm in ("is_none", "is_err") and not truth:
+                facts.append(("present", strip(o[3][0]), None))
+            elif nm == "contains_key" and truth:
+                facts.append(("has_key", o[3][0], o[3][1]))
+        elif o[0] == "disc":
+            if truth == 1 or truth == 0:
+                facts.append(("variant", strip(o[1]), truth))
+    return facts
+
+
+U32, U64 = (1 << 32) - 1, (1 << 64) - 1
+
+
+def ub(ctx, fa, t, depth=0):
+    """upper bound of an unsigned integer term, or None"""
+    t = unwrap_ovf(t)
+    v = ev(ctx, t)
+    if v is not None:
+        return v
+    if depth > 12 or not isinstance(t, tuple):
+        return None
+    k = t[0]
+    if k in ("ok", "some", "await"):
+        return ub(ctx, fa, t[1], depth + 1)
+    if k == "join":
+        xs = [x for x in t[1] if not contains(x, lambda s: isinstance(s, tuple) and s and s[0] == "cycle")]
+        bs = [ub(ctx, fa, x, depth + 1) for x in xs]
+        if len(xs) == len(t[1]) and bs and all(b is not None for b in bs):
+            return max(bs)
+        return None
+    if k == "bin":
+        a, b = ub(ctx, fa, t[2], depth + 1), ub(ctx, fa, t[3], depth + 1)
+        op = t[1]
+        if op == "BitAnd":
+            c = [x for x in (ev(ctx, t[2]), ev(ctx, t[3])) if x is not None]
+            if c:
+                return min(c)
+            return min([x for x in (a, b) if x is not None], default=None)
+        if op == "Div" and a is not None:
+            d = ev(ctx, t[3])
+            return a // d if d else None
+        if op == "Rem":
+            d = ev(ctx, t[3])
+            return d - 1 if d else None
+        if op == "Sub":
+            return a
+        if op == "Shr" and a is not None:
+            s = ev(ctx, t[3])
+            return a >> s if s is not None else a
+        if op in ("Add", "Mul") and a is not None and b is not None:
+            return a + b if op == "Add" else a * b
+        return None
+    if k == "call":
+        nm = t[2].split("::")[-1]
+        if nm == "min":
+            bs = [ub(ctx, fa, x, depth + 1) for x in t[3]]
+            bs = [b for b in bs if b is not None]
+            return min(bs) if bs else None
+        if nm in ("expect", "unwrap", "try_into", "try_from", "into", "from"):
+            return ub(ctx, fa, t[3][0], depth + 1)
+    return None
+
+
+def discharge_auto(ctx, site):
+    fa, bb = site.fa, site.bb
+    facts = None
+    def F():
+        nonlocal facts
+        if facts is None:
+            facts = known_relations(ctx, fa, bb)
+        return facts
+    k = site.kind
+    if k == "assert":
+        d = site.detail
+        if d in ("DivisionByZero", "RemainderByZero"):
+            v = ev(ctx, site.ops[0])
+            if v is not None and v != 0:
+                return "A1", "constant non-zero divisor %s" % v
+        if d == "BoundsCheck":
+            ln, ix = site.ops
+            lv, iv = ev(ctx, ln), ev(ctx, ix)
+            if lv is not None and iv is not None and iv < lv:
+                return "A1", "constant index %d below constant length %d" % (iv, lv)
+            base = strip(ln)
+            for op, a, b in F():
+                if op == "Lt" and same(a, ix) and same(b, ln):
+                    return "A2", "guard %s < %s" % (term_sig_(ix), term_sig_(ln))
+            # index 0 under non-empty
+            if iv is not None:
+                for op, a, b in F():
+                    bv = ev(ctx, b)
+                    if same(a, ln) and bv is not None and ((op == "Gt" and bv >= iv) or (op == "Ge" and bv > iv)):
+                        return "A2", "guard len > %d" % iv
+            u = ub(ctx, fa, ix)
+            if lv is not None and u is not None and u < lv:
+                return "A1", "index bounded by %d below constant length %d" % (u, lv)
+        if d == "Overflow(Sub)":
+            a, b = site.ops
+            av, bv = ev(ctx, a), ev(ctx, b)
+            if av is not None and bv is not None and av >= bv:
+                return "A1", "constant operands %d - %d" % (av, bv)
+            for op, x, y in F():
+                if op in ("Ge", "Gt") and same(x, a) and same(y, b):
+                    return "A2", "guard %s %s %s" % (term_sig_(a), ">=" if op == "Ge" else ">", term_sig_(b))
+                if bv is not None and same(x, a):
+                    yv = ev(ctx, y)
+                    if yv is not None and ((op == "Gt" and yv >= bv - 1) or (op == "Ge" and yv >= bv) or (op == "Ne" and yv == 0 and bv == 1)):
+                        return "A2", "guard %s %s %d covers - %d" % (term_sig_(a), op, yv, bv)
+            # a = x & mask style: (index - (index & m)) is always fine
+            ua, ub_ = unwrap_ovf(a), unwrap_ovf(b)
+            if ub_[0] == "bin" and ub_[1] == "BitAnd" and (same(ub_[2], ua) or same(ub_[3], ua)):
+                return "A1", "x - (x & m) cannot underflow"
+            if ua[0] == "bin" and ua[1] == "Add" and (same(ua[2], ub_) or same(ua[3], ub_)):
+                return "A1", "(a + b) - a cannot underflow"
+            if av is not None:
+                u = ub(ctx, fa, b)
+                if u is not None and u <= av:
+                    return "A1", "constant %d minus a value bounded by %d" % (av, u)
+            # a = len(v), b = 1 under any fact  x < len(v)
+            if bv == 1:
+                for op, x, y in F():
+                    if op == "Lt" and same(y, a):
+                        return "A2", "guard (something < %s) implies it is positive" % term_sig_(a)
+                    if op == "Gt" and same(x, a):
+                        return "A2", "guard %s > something implies it is positive" % term_sig_(a)
+    if k == "unwrap":
+        x = strip(site.ops[0])
+        for f in F():
+            if f[0] == "present" and same(f[1], x):
+                return "A2", "dominated by is_some/is_ok on the same value"
+            if f[0] == "variant" and f[2] == 1 and same(f[1], x) and site.detail in ("unwrap", "expect"):
+                return "A2", "dominated by the Some/Ok pattern edge"
+        # unwrap of a value just built as Some/Ok
+        if is_agg(x, "Some") or is_agg(x, "Ok"):
+            return "A1", "value constructed as Some/Ok"
+        # map.get(k).unwrap() under map.contains_key(k)
+        if x[0] == "call" and x[2].split("::")[-1] in ("get", "get_mut") and len(x[3]) == 2:
+            for f in F():
+                if f[0] == "has_key" and same(f[1], x[3][0]) and same(f[2], x[3][1]):
+                    return "A2", "dominated by contains_key on the same map and key"
+        # integer narrowing of a bounded value
+        if x[0] == "call" and x[2].split("::")[-1] in ("try_into", "try_from"):
+            t_ = fa.blocks[site.bb].term
+            ty = t_.get("arg_tys", [""])[0]
+            u = ub(ctx, fa, x[3][0])
+            lim = U32 if "<u32," in ty else (U64 if ("<usize," in ty or "<u64," in ty) else None)
+            if "<usize," in ty and ("u32" in str(fa.blocks[x[1]].term.get("callee_full")) or "u32" in str(fa.blocks[x[1]].term.get("arg_tys"))):
+                return "A1", "u32 -> usize conversion cannot fail on a 64-bit target"
+            if u is not None and lim is not None and u <= lim:
+                return "A1", "narrowing of a value bounded by %d" % u
+    if k == "index":
+        base, ix = site.ops[0], site.ops[1] if len(site.ops) > 1 else None
+        if ix is not None:
+            for op, a, b in F():
+                if op == "Lt" and same(a, ix) and b[0] == "len" and same(b[1], base):
+                    return "A2", "guard index < len(base)"
+            iv = ev(ctx, ix)
+            if iv is not None:
+                for op, a, b in F():
+                    bv = ev(ctx, b)
+                    if a[0] == "len" and same(a[1], base) and bv is not None and ((op == "Gt" and bv >= iv) or (op == "Ge" and bv > iv)):
+                        return "A2", "guard len(base) > %d" % iv
+            # for i in 0..len(base)
+            s = term_sig_(ix)
+            bs = term_sig_(strip(base))
+            if s.startswith("some(next(") and ("end: len(%s)" % bs) in s and "start: 0" in s:
+                return "A2", "index iterates 0..len(base)"
+            uix = unwrap_ovf(ix)
+            # base[len(base) - j] under len(base) > j-1
+            if uix[0] == "bin" and uix[1] == "Sub" and uix[2][0] == "len" and same(uix[2][1], base):
+                j = ev(ctx, uix[3])
+                if j is not None:
+                    for op, a, b in F():
+                        bv = ev(ctx, b)
+                        if a[0] == "len" and same(a[1], base) and bv is not None and ((op == "Gt" and bv >= j - 1) or (op == "Ge" and bv >= j) or (op == "Ne" and bv == 0 and j == 1)):
+                            return "A2", "guard len(base) %s %d covers [len-%d]" % (op, bv, j)
+                        if a[0] == "len" and same(a[1], base) and op == "Gt" and j == 1:
+                            return "A2", "guard len(base) > (unsigned) covers [len-1]"
+    return None, None
+
+
+def closure_of(ctx, entries):
+    g = cg(ctx)
+    start = []
+    for e in entries:
+        for b in ctx.crate.group(e):
+            start.append(b.name)
+    return g.reach_from(start)
+
+
+def load_table():
+    path = os.path.join(os.path.dirname(os.path.dirname(os.path.dirname(os.path.abspath(__file__)))), "rules", "panic_sites.json")
+    if not os.path.exists(path):
+        return {}
+    return {e["key"]: e for e in json.load(open(path))}
+
+
+def panic_rule(ctx, prop, rule, entries, floor=0, skip_fns=()):
+    names = closure_of(ctx, entries)
+    table = load_table()
+    n_sites = n_counted = 0
+    used = set()
+    stats = {"A1": 0, "A2": 0, "A3": 0, "A4": 0}
+    bodies = 0
+    for nm in sorted(names):
+        for b in ctx.crate.bodies.get(nm, []):
+            if fn_of(b.name) in skip_fns:
+                continue
+            fa = ctx.fa(b)
+            bodies += 1
+            sites_, counted = panic_sites(ctx, fa)
+            n_counted += counted
+            # group identical keys (macro duplicates) but check each
+            for s in sites_:
+                n_sites += 1
+                how, why = discharge_auto(ctx, s)
+                key = s.key()
+                anchor = "%s: %s" % (s.fn.split("::")[-1], s.sig()[:110])
+                if how:
+                    stats[how] += 1
+                    ctx.ok(prop, rule, anchor, "%s: %s" % (how, why), [s.where()])
+                    continue
+                e = table.get(key)
+                if e is not None:
+                    used.add(key)
+                    if e.get("guard"):
+                        # A3: the named guard must still dominate the site
+                        conds = [term_sig_(o) + ("" if t is True else "=%s" % (t,)) for o, t, _ in dominating_conditions(s.fa, s.bb)]
+                        okg = any(e["guard"] in c for c in conds)
+                        if okg:
+                            stats["A3"] += 1
+                            ctx.ok(prop, rule, anchor, "A3: reviewed; required guard `%s` dominates the site" % e["guard"], [s.where()])
+                        else:
+                            ctx.fail(prop, rule, anchor, "reviewed panic site lost its guard: `%s` no longer dominates %s at %s (dominating conditions: %s)" % (e["guard"], s.sig(), s.where(), conds[:6]), [s.where()],
+                                     key="%s|%s|%s|guard lost" % (prop, rule, key))
+                    else:
+                        stats["A4"] += 1
+                        ctx.ok(prop, rule, anchor, "A4 (assumed invariant): %s" % e["reason"], [s.where()], assumed=True)
+                    continue
+                ctx.fail(prop, rule, anchor, "panic-capable construct reachable from %s is not discharged: %s at %s — no dominating guard, constant operands, or reviewed entry" % (
+                    "/".join(x.split("::")[-1] for x in entries), s.sig(), s.where()), [s.where()], key="%s|%s|%s" % (prop, rule, key))
+    if floor and n_sites < floor and ctx.crate.name == "hypercore":
+        ctx.missing(prop, rule, "panic-capable sites in the closure of %s" % entries, "found %d (floor %d)" % (n_sites, floor))
+    ctx.ok(prop, rule, "closure of %s enumerated" % ",".join(x.split("::")[-1] for x in entries),
+           "%d bodies, %d panic-capable sites (A1 const %d, A2 guard %d, A3 reviewed+guard %d, A4 assumed %d), %d add/mul/shl overflow asserts counted (not obligations below 2^40)" % (
+               bodies, n_sites, stats["A1"], stats["A2"], stats["A3"], stats["A4"], n_counted))
+    return n_sites, stats
+
+
+CLAIMED = False
+NA_REASON = "panic-site engine being built"
+
+
+# ===========================================================================
+ENTRIES = [CREATE_PROOF, VAP]
+
+
+def r1(ctx):
+    panic_rule(ctx, P, "C09.R1", ENTRIES, floor=100)
+
+
+def r3(ctx):
+    names = sorted(set(fn_of(n) for n in closure_of(ctx, ENTRIES)))
+    loops_can_exit(ctx, P, "C09.R3", names, floor=40)
+
+
+def r4(ctx):
+    rule = "C09.R4"
+    fa = ctx.fn(MT_CVP)
+    if need(ctx, P, rule, MT_CVP, fa):
+        # from >= to || to > head  ->  Err
+        conds = list(bool_switches(fa, lambda o: o[0] == "bin" and o[1] in ("Ge", "Gt", "Lt", "Le")))
+        def is_(o, op, a_has, b_has):
+            return o[1] == op and a_has in term_str(o[2]) and b_has in term_str(o[3])
+        ge = [x for x in conds if is_(x[1], "Ge", "upgrade", "upgrade") and "length" in term_str(x[1][3])]
+        gt = [x for x in conds if x[1][1] == "Gt" and "self.length" in term_str(x[1][3]) and "upgrade" in term_str(x[1][2])]
+        ok1 = ok2 = False
+        if ge:
+            vals = [t for _, _, t in ret_values_in_region(fa, ge[0][2])]
+            ok1 = bool(vals) and all(is_agg(t, "Err") for t in vals)
+        if gt:
+            vals = [t for _, _, t in ret_values_in_region(fa, gt[0][2])]
+            ok2 = bool(vals) and all(is_agg(t, "Err") for t in vals)
+        ctx.check(P, rule, "create_valueless_proof rejects an empty or inverted upgrade range", ok1, "from >= to returns Err", "no `from >= to => Err` validation of the upgrade range", key="C09|C09.R4|create_valueless_proof|from>=to")
+        ctx.check(P, rule, "create_valueless_proof rejects an upgrade beyond the tree", ok2, "to > head returns Err", "no `to > head => Err` validation of the upgrade range", key="C09|C09.R4|create_valueless_proof|to>head")
+        if ge and gt:
+            passed = [ge[0][3], gt[0][3]]
+            users = sites_any(fa, (MT + "::upgrade_proof", MT + "::additional_upgrade_proof", NODES_TO_ROOT, MT + "::seek_from_head", MT + "::block_and_seek_proof"))
+            bad = [s for s in users if not all(fa.dominates(p_, s) for p_ in passed)]
+            ctx.check(P, rule, "range validation precedes every use of from/to", users and not bad, "%d proof-building calls all behind the validation" % len(users), "proof-building calls not dominated by the range validation: %s" % [loc(fa, s) for s in bad])
+    fn_ = ctx.fn(NODES_TO_ROOT)
+    if need(ctx, P, rule, NODES_TO_ROOT, fn_):
+        cs = [s for s, t in fn_.calls() if (t.get("callee") or "").endswith("flat_tree::Iterator::contains")]
+        lp = fn_.loops()
+        good = bool(cs) and any(cs[0] in body for _, body, _ in lp)
+        if good:
+            sw = list(bool_switches(fn_, lambda o: o[0] == "call" and o[1] == cs[0]))
+            vals = [t for _, _, t in ret_values_in_region(fn_, sw[0][2])] if sw else []
+            good = bool(vals) and all(is_agg(t, "Err") for t in vals) and strip(sw[0][1][3][1]) == ("param", "head")
+        ctx.check(P, rule, "nodes_to_root stops climbing at the tree head", good, "each step checks iter.contains(head) => Err", "nodes_to_root does not bound the requested node count by the tree head", key="C09|C09.R4|nodes_to_root|head check")
+    fs = ctx.fn(NQ_SHIFT)
+    if need(ctx, P, rule, NQ_SHIFT, fs):
+        idx = [s for s, t in fs.calls() if t.get("callee") == "std::ops::Index::index" and "self.nodes" in term_str(fs.arg_origin(s, 0))]
+        good = False
+        if idx:
+            for o, truth, sb in dominating_conditions(fs, idx[0]):
+                if o[0] == "bin" and ((o[1] == "Ge" and truth is False) or (o[1] == "Lt" and truth is True)) and "self.i" in term_str(o[2]) and "self.nodes" in term_str(o[3]):
+                    good = True
+        ctx.check(P, rule, "NodeQueue::shift checks the cursor before indexing", good, "self.i >= self.nodes.len() => Err dominates self.nodes[self.i]", "self.nodes[self.i] is not guarded by the cursor check", key="C09|C09.R4|NodeQueue::shift|cursor check")
+    fx = ctx.fn(NEXT_SLOT)
+    if need(ctx, P, rule, NEXT_SLOT, fx):
+        rets = [t for _, _, t in ret_assigns(fx)]
+        vs = set()
+        for t in rets:
+            for r in roots(t):
+                if is_agg(r) and r[1] == "tuple":
+                    s0 = agg_field(r, "0")
+                    for q in roots(s0):
+                        vs.add(q[2] if is_agg(q) else term_str(q))
+        ctx.check(P, rule, "slot rotation yields only the two header slots", vs == {"FirstHeader", "SecondHeader"}, "returns FirstHeader | SecondHeader", "get_next_header_oplog_slot_and_bit_value can return %s" % sorted(vs))
+
+
+RULES = [r1, r3, r4]
+CONTROLS = ["c09_unguarded_index", "c09_loop_cannot_exit"]
+CLAIMED = False
+NA_REASON = "rules C09.R1/R3/R4 are wired; R1 fires on the unchanged tree (three unguarded panic sites) and is being triaged before the property is claimed"
+EXPLANATION = ("C09 (no peer request or proof can panic or hang the node): enumerates every panic-capable construct (bounds / subtraction / division asserts, unwrap/expect, Index on Vec/slice, "
+               "panic! entry points, RefCell borrows, drain/split/pow) in the call-graph closure of create_proof and verify_and_apply_proof and requires each to be discharged by constant operands "
+               "(A1), an automatically found dominating comparison guard over the same terms (A2), a reviewed entry whose required guard is re-verified to dominate (A3) or a reviewed invariant "
+               "reported as assumed (A4) (R1, which subsumes bounds provenance: an index bounded against one collection and applied to another is undischarged); requires every natural loop in that "
+               "closure to have an exit condition its body can change (R3); requires the anchored request validations to be present and to precede every use (R4).")
+NOT_DECIDED = ("termination of loops whose exit depends on flat-tree arithmetic; panics inside dependency crates (flat_tree, compact_encoding, blake2, ed25519-dalek, intmap are leaves); memory exhaustion; "
+               "that the A4 invariants (listed in the evidence as assumed) actually hold; add/mul/shl overflow (numeric fields are bounded below 2^40 by the property).")
+ASSUMPTIONS = ["numeric fields of requests and proofs are below 2^40", "A4 invariants in rules/panic_sites.json (each with a one-line reason) hold"]
